@@ -4,9 +4,10 @@
   dbm.gas_liq_eq, the end of dbm.equil_MM and the back-conversion of FluidMixture.equilibrium,
   tied to /repo by the correspondence run of harness/c02.py) at `α := ℝ`.
   All statements hold for every list length n and every amount of fuel.
-  NOT theorems (evaluated on the real code by the harness as labelled tests): convergence of the
-  loops to a small residual, stability of a reported single phase (tangent-plane distance),
-  "feed in the row of the EOS root with the lower Gibbs energy".
+  NOT theorems (evaluated on the real code by the harness as labelled tests): termination and
+  convergence of the loops, isofugacity of the converged outputs (successive_substitution is not
+  modelled), stability of a reported single phase (tangent-plane distance), "feed in the row of the
+  EOS root with the lower Gibbs energy".
 -/
 import TamocV.Real
 import TamocV.Lemmas.Basic
@@ -25,12 +26,12 @@ def AllPos (K : List ℝ) : Prop := ∀ k ∈ K, 0 < k
 example : IsComposition [1/2, 1/4, 1/4] ∧ AllPos [3, 1/2, 1/100] := by
   refine ⟨⟨?_, by norm_num⟩, ?_⟩ <;> intro x hx <;> simp at hx <;> rcases hx with rfl | rfl | rfl <;> norm_num
 
-theorem comp_le_one {z : List ℝ} (hz : IsComposition z) : ∀ x ∈ z, x ≤ 1 := by
+private theorem comp_le_one {z : List ℝ} (hz : IsComposition z) : ∀ x ∈ z, x ≤ 1 := by
   intro x hx
   rw [← hz.2]
   exact List.single_le_sum hz.1 x hx
 
-theorem zip_facts {z K : List ℝ} (hlen : z.length = K.length) :
+private theorem zip_facts {z K : List ℝ} (hlen : z.length = K.length) :
     (List.zip z K).map Prod.fst = z ∧ (∀ p ∈ List.zip z K, p.1 ∈ z ∧ p.2 ∈ K) := by
   refine ⟨List.map_fst_zip (le_of_eq hlen), ?_⟩
   intro p hp
@@ -131,7 +132,7 @@ theorem rr_denominators_pos_at_result (z K : List ℝ) (fuel : Nat) (hlen : z.le
 
 /-! ## 2. The rows -/
 
-theorem gasLiqEqZ_rows (z K : List ℝ) (fuel : Nat) :
+private theorem gasLiqEqZ_rows (z K : List ℝ) (fuel : Nat) :
     (gasLiqEqZ z K fuel).xg = (rows z K (gasLiqEqZ z K fuel).beta).1 ∧
     (gasLiqEqZ z K fuel).xl = (rows z K (gasLiqEqZ z K fuel).beta).2 := ⟨rfl, rfl⟩
 
@@ -445,22 +446,6 @@ theorem single_phase_masses (m M : List ℝ) (h : IsFeed m M) (i : Nat) :
     have hz : (equilibriumPost m M ⟨zeros zp, zp, 0, none⟩).mg.getD i 0 = 0 := by rw [e1]; ring
     exact ⟨hz, by rw [← e3, hz]; ring⟩
 
-/-- **About the formula the code used before commit 87c9b6c** (gas moles from the material balance of
-    the first non-zero component, "independent of which component you pick" according to its comment):
-    it equals β·N only when that component's two mole fractions differ, and is FALSE otherwise —
-    z = (⅓,⅓,⅓), K = (1,2,½) has the two-phase solution β = ½, x_gas = (⅓,4/9,2/9), x_liq = (⅓,2/9,4/9)
-    (`witness_rows_are_rr_solution`), N = 3, and the old formula gives 0 gas moles instead of 3/2, so
-    that component 2 would lose a third of its mass.  (The real code computed 0/0 = NaN there, and
-    negative masses for K_1 = 1 ± 2e-16; it is kept as a targeted case of the harness.) -/
-theorem old_first_component_formula :
-    (∀ N β ni xgi xli : ℝ, 0 ≤ N → 0 ≤ β → N * (β * xgi + (1 - β) * xli) = ni → xgi ≠ xli →
-      ngFirstComponent N ni xgi xli = β * N) ∧
-    (∃ N β ni xgi xli : ℝ, 0 < N ∧ 0 < β ∧ β < 1 ∧ N * (β * xgi + (1 - β) * xli) = ni ∧
-      ngFirstComponent N ni xgi xli ≠ β * N) := by
-  refine ⟨ngFirstComponent_eq, 3, 1/2, 1, 1/3, 1/3, by norm_num, by norm_num, by norm_num, by norm_num, ?_⟩
-  unfold ngFirstComponent
-  norm_num
-
 /-! ## 4. Phase label and single-phase clean-up at the end of `equil_MM` -/
 
 /-- the label of a single-phase result comes from the LAST gas fraction only: `beta > 0.5` → all of the
@@ -514,7 +499,7 @@ theorem single_phase_rows (z : List ℝ) (last : MMOut ℝ) (hz : IsComposition 
   · rw [e, (label_from_last_beta z last.beta).2 h]
     exact ⟨rfl, Or.inr ⟨rfl, rfl, hz.2, zeros_getD z⟩⟩
 
-/-! ## 5. Reported K and isofugacity -/
+/-! ## 5. Reported K -/
 
 /-- **Reported K = ratio of gas to liquid mole fraction** when both phases are present: the K vector
     `equilibrium` returns (zero-components re-inserted) satisfies x_gas,i = K_i · x_liq,i for every
@@ -540,28 +525,8 @@ theorem reported_K_is_ratio (z K m M : List ℝ) (fuel : Nat) (hlen : z.length =
   intro i hi
   rw [hx i, mul_div_assoc, div_self hi, mul_one]
 
-/-- **Isofugacity at a fixed point of the successive substitution**: if the K-factor update
-    `K_new = (f_liq/(x_liq P)) / (f_gas/(x_gas P))` returns the K it started from, and the rows obey
-    x_gas = K x_liq, then every component has the same fugacity in both phases (whatever the
-    equation of state that produced `fg`, `fl`). -/
-theorem isofugacity_at_fixed_point (xg xl fg fl K : List ℝ) (P : ℝ)
-    (hl1 : fl.length = xl.length) (hl2 : fg.length = xg.length) (i : Nat)
-    (hfix : (kUpdate xg xl fg fl P).getD i 0 = K.getD i 0)
-    (hK : xg.getD i 0 = K.getD i 0 * xl.getD i 0)
-    (hk0 : K.getD i 0 ≠ 0) (hx : xl.getD i 0 ≠ 0) (hP : P ≠ 0) (hf : fg.getD i 0 ≠ 0) :
-    fg.getD i 0 = fl.getD i 0 := by
-  unfold kUpdate at hfix
-  rw [getD_zipWith_div, getD_zipWith_len _ (by simp) fl xl hl1, getD_zipWith_len _ (by simp) fg xg hl2, hK] at hfix
-  field_simp at hfix
-  exact hfix.symm
-
-example : ∃ xg xl fg fl K : List ℝ, ∃ P : ℝ, (kUpdate xg xl fg fl P).getD 0 0 = K.getD 0 0 ∧
-    xg.getD 0 0 = K.getD 0 0 * xl.getD 0 0 ∧ K.getD 0 0 ≠ 0 ∧ xl.getD 0 0 ≠ 0 ∧ P ≠ 0 ∧ fg.getD 0 0 ≠ 0 :=
-  ⟨[1/2], [1/4], [3], [3], [2], 10, by simp [kUpdate]; norm_num, by norm_num, by norm_num, by norm_num, by norm_num,
-    by norm_num⟩
-
-/-- the rows quoted above ARE what the phase-split solve returns for z = (⅓,⅓,⅓),
-    K = (1,2,½), with any fuel ≥ 1 (one pass: g = 0 at the first guess β = ½) -/
+/-- a fully evaluated two-phase instance: for z = (⅓,⅓,⅓), K = (1,2,½) the solve returns β = ½,
+    x_gas = (⅓,4/9,2/9), x_liq = (⅓,2/9,4/9), with any fuel ≥ 1 (one pass: g = 0 at the first guess β = ½) -/
 theorem witness_rows_are_rr_solution (fuel : Nat) :
     (gasLiqEqZ ([1/3, 1/3, 1/3] : List ℝ) [1, 2, 1/2] (fuel + 1)).beta = 1 / 2 ∧
     (gasLiqEqZ ([1/3, 1/3, 1/3] : List ℝ) [1, 2, 1/2] (fuel + 1)).xg = [1/3, 4/9, 2/9] ∧
@@ -616,5 +581,173 @@ example : ∃ (m M : List ℝ) (o : MMOut ℝ), IsFeed m M ∧ o.xg.length = o.x
     rw [hm, moleFrac_real]
     simp only [gather, Num.vdiv]
     norm_num
+
+/-! ## 7. The returned β and the Rachford–Rice ROOT (these depend on the direction of the bound update) -/
+
+/-- in the two-phase branch (condition (4) fails) g is strictly decreasing on [0,1] -/
+theorem rr_g_strictly_decreasing (z K : List ℝ) (hlen : z.length = K.length) (hz : IsComposition z) (hK : AllPos K)
+    (h4 : ¬ ((List.zipWith (fun a b => a * b) z K).sum - 1 ≤ 0)) (b1 b2 : ℝ) (h0 : 0 ≤ b1) (h12 : b1 < b2) (h1 : b2 ≤ 1) :
+    gGas z K b2 < gGas z K b1 :=
+  gGas_strictAnti z K hlen hz.1 hK (exists_volatile z K hlen hz.1 hz.2 h4) b1 b2 h0 h12 h1
+
+/-- … so the Rachford–Rice equation has at most one root in [0,1] -/
+theorem rr_root_unique (z K : List ℝ) (hlen : z.length = K.length) (hz : IsComposition z) (hK : AllPos K)
+    (h4 : ¬ ((List.zipWith (fun a b => a * b) z K).sum - 1 ≤ 0)) (r1 r2 : ℝ) (a0 : 0 ≤ r1) (a1 : r1 ≤ 1) (b0 : 0 ≤ r2)
+    (b1 : r2 ≤ 1) (e1 : gGas z K r1 = 0) (e2 : gGas z K r2 = 0) : r1 = r2 := by
+  rcases lt_trichotomy r1 r2 with h | h | h
+  · have := rr_g_strictly_decreasing z K hlen hz hK h4 r1 r2 a0 h b1; rw [e1, e2] at this; exact absurd this (lt_irrefl _)
+  · exact h
+  · have := rr_g_strictly_decreasing z K hlen hz hK h4 r2 r1 b0 h a1; rw [e1, e2] at this; exact absurd this (lt_irrefl _)
+
+/-- every root lies in the initial bracket of equations (7)/(8) -/
+theorem rr_root_in_initial_bracket (z K : List ℝ) (hlen : z.length = K.length) (hz : IsComposition z) (hK : AllPos K)
+    (r : ℝ) (hr0 : 0 ≤ r) (hr1 : r ≤ 1) (hroot : gGas z K r = 0) : (bounds z K).1 ≤ r ∧ r ≤ (bounds z K).2 := by
+  have := root_in_bounds z K hlen hz.1 hz.2 hK r hr0 hr1 hroot
+  simpa [bounds] using this
+
+/-- **One pass keeps the root inside [beta_min, beta_max]** (position of the root in the loop variable: β for the
+    gas form, 1 − β for the liquid form).  Unlike the bracket invariant of §1 this is FALSE for a pass whose sign
+    tests `g > 0` are flipped: it uses the direction of the update and the monotonicity of g. -/
+theorem rr_step_keeps_root (z K : List ℝ) (hlen : z.length = K.length) (hz : IsComposition z) (hK : AllPos K)
+    (h4 : ¬ ((List.zipWith (fun a b => a * b) z K).sum - 1 ≤ 0)) (gasForm : Bool)
+    (r : ℝ) (hr0 : 0 ≤ r) (hr1 : r ≤ 1) (hroot : gGas z K r = 0) (s : RRState ℝ) (hv0 : 0 ≤ s.bvar) (hv1 : s.bvar ≤ 1)
+    (h : s.bmin ≤ (if gasForm then r else 1 - r) ∧ (if gasForm then r else 1 - r) ≤ s.bmax) :
+    (rrStep z K gasForm s).1.bmin ≤ (if gasForm then r else 1 - r) ∧
+    (if gasForm then r else 1 - r) ≤ (rrStep z K gasForm s).1.bmax :=
+  rrStep_keeps_root z K gasForm r hr0 hr1 hroot (rr_g_strictly_decreasing z K hlen hz hK h4) s hv0 hv1 h
+
+/-- **The returned β and the root share the final bracket**, for any fuel: in the two-phase branch there is a
+    bracket [lo, hi] — the final [beta_min, beta_max] of the loop that ran, mapped back to β — containing both
+    the returned gas fraction and the (unique) root, hence |β − root| ≤ hi − lo. -/
+theorem rr_result_brackets_root (z K : List ℝ) (fuel : Nat) (hlen : z.length = K.length) (hz : IsComposition z)
+    (hK : AllPos K)
+    (h4 : ¬ ((List.zipWith (fun a b => a * b) z K).sum - 1 ≤ 0))
+    (h5 : ¬ (0 < 1 - (List.zipWith (fun a b => a / b) z K).sum))
+    (r : ℝ) (hr0 : 0 ≤ r) (hr1 : r ≤ 1) (hroot : gGas z K r = 0) :
+    ∃ s' : RRState ℝ, ∃ lo hi : ℝ,
+      (s' = (rrLoop z K true fuel ⟨(bounds z K).1, (bounds z K).2, 1 / 2 * ((bounds z K).1 + (bounds z K).2)⟩ []).1 ∧
+          lo = s'.bmin ∧ hi = s'.bmax ∨
+       s' = (rrLoop z K false fuel ⟨1 - (bounds z K).2, 1 - (bounds z K).1,
+              1 - 1 / 2 * ((bounds z K).1 + (bounds z K).2)⟩ []).1 ∧ lo = 1 - s'.bmax ∧ hi = 1 - s'.bmin) ∧
+      lo ≤ (gasLiqEqZ z K fuel).beta ∧ (gasLiqEqZ z K fuel).beta ≤ hi ∧ lo ≤ r ∧ r ≤ hi ∧
+      |(gasLiqEqZ z K fuel).beta - r| ≤ hi - lo := by
+  have hanti := rr_g_strictly_decreasing z K hlen hz hK h4
+  obtain ⟨b1, b2, b3⟩ := rr_initial_bracket z K hlen hz hK
+  obtain ⟨q1, q2⟩ := rr_root_in_initial_bracket z K hlen hz hK r hr0 hr1 hroot
+  have hβ : (gasLiqEqZ z K fuel).beta = (rrBeta z K fuel).1 := rfl
+  rcases rrBeta_cases z K fuel with ⟨h, _⟩ | ⟨_, h, _⟩ | ⟨_, _, _, h⟩ | ⟨_, _, _, h⟩
+  · exact absurd h h4
+  · exact absurd h h5
+  · have hi := rrLoop_inv z K true 0 1 fuel
+      ⟨(bounds z K).1, (bounds z K).2, 1 / 2 * ((bounds z K).1 + (bounds z K).2)⟩ []
+      ⟨b1, by simp only []; linarith, by simp only []; linarith, b3⟩
+    have hk := rrLoop_keeps_root z K true r hr0 hr1 hroot hanti r rfl fuel
+      ⟨(bounds z K).1, (bounds z K).2, 1 / 2 * ((bounds z K).1 + (bounds z K).2)⟩ []
+      ⟨b1, by simp only []; linarith, by simp only []; linarith, b3⟩ ⟨q1, q2⟩
+    refine ⟨_, _, _, Or.inl ⟨rfl, rfl, rfl⟩, ?_, ?_, hk.1, hk.2, ?_⟩
+    · rw [hβ, h]; exact hi.2.1
+    · rw [hβ, h]; exact hi.2.2.1
+    · rw [hβ, h, abs_le]; constructor <;> linarith [hi.2.1, hi.2.2.1, hk.1, hk.2]
+  · have hi := rrLoop_inv z K false 0 1 fuel
+      ⟨1 - (bounds z K).2, 1 - (bounds z K).1, 1 - 1 / 2 * ((bounds z K).1 + (bounds z K).2)⟩ []
+      ⟨by simp only []; linarith, by simp only []; linarith, by simp only []; linarith, by simp only []; linarith⟩
+    have hk := rrLoop_keeps_root z K false r hr0 hr1 hroot hanti (1 - r) (by simp) fuel
+      ⟨1 - (bounds z K).2, 1 - (bounds z K).1, 1 - 1 / 2 * ((bounds z K).1 + (bounds z K).2)⟩ []
+      ⟨by simp only []; linarith, by simp only []; linarith, by simp only []; linarith, by simp only []; linarith⟩
+      ⟨by simp only []; linarith, by simp only []; linarith⟩
+    refine ⟨_, _, _, Or.inr ⟨rfl, rfl, rfl⟩, ?_, ?_, ?_, ?_, ?_⟩
+    · rw [hβ, h]; linarith [hi.2.2.1]
+    · rw [hβ, h]; linarith [hi.2.1]
+    · linarith [hk.2]
+    · linarith [hk.1]
+    · rw [hβ, h, abs_le]; constructor <;> linarith [hi.2.1, hi.2.2.1, hk.1, hk.2]
+
+/-- after any pass the previous iterate is an end point of the new bracket -/
+theorem rr_old_iterate_is_endpoint (z K : List ℝ) (gasForm : Bool) (s : RRState ℝ) :
+    s.bvar = (rrStep z K gasForm s).1.bmin ∨ s.bvar = (rrStep z K gasForm s).1.bmax := by
+  unfold rrStep
+  cases gasForm <;> simp only [if_true, if_false, Bool.false_eq_true] <;> split_ifs <;> simp
+
+/-- **Bisection exit**: when a pass takes the bisection branch, the distance of the new iterate to anything that
+    lies in the new bracket — in particular to the root, by `rr_step_keeps_root` — is at most the increment
+    |beta_var − beta_old| that the exit test compares with 1e-8.  (With `rr_newton_exit_residual_partial` every exit
+    of the loop now carries a statement.) -/
+theorem rr_bisection_exit_error (z K : List ℝ) (gasForm : Bool) (s : RRState ℝ) (ρ : ℝ)
+    (hbis : (rrStep z K gasForm s).1.bvar = 1 / 2 * ((rrStep z K gasForm s).1.bmin + (rrStep z K gasForm s).1.bmax))
+    (hρ : (rrStep z K gasForm s).1.bmin ≤ ρ ∧ ρ ≤ (rrStep z K gasForm s).1.bmax) :
+    |(rrStep z K gasForm s).1.bvar - ρ| ≤ |(rrStep z K gasForm s).2| := by
+  have e : (rrStep z K gasForm s).2 = (rrStep z K gasForm s).1.bvar - s.bvar := rfl
+  rw [e, hbis]
+  rcases rr_old_iterate_is_endpoint z K gasForm s with h | h <;> rw [h]
+  · rw [abs_le]
+    have : (0:ℝ) ≤ 1 / 2 * ((rrStep z K gasForm s).1.bmin + (rrStep z K gasForm s).1.bmax) - (rrStep z K gasForm s).1.bmin := by
+      linarith [hρ.1, hρ.2]
+    rw [abs_of_nonneg this]; constructor <;> linarith [hρ.1, hρ.2]
+  · rw [abs_le]
+    have : 1 / 2 * ((rrStep z K gasForm s).1.bmin + (rrStep z K gasForm s).1.bmax) - (rrStep z K gasForm s).1.bmax ≤ (0:ℝ) := by
+      linarith [hρ.1, hρ.2]
+    rw [abs_of_nonpos this]; constructor <;> linarith [hρ.1, hρ.2]
+
+/-- denominators for K_i ≥ 0 (the code replaces a NaN K by 0, l.3007; denormal K are positive): positive whenever
+    β < 1 -/
+theorem rr_denominators_pos_nonneg_K (β k : ℝ) (h0 : 0 ≤ β) (h1 : β < 1) (hk : 0 ≤ k) : 0 < 1 + β * (k - 1) :=
+  den_pos_of_nonneg β k h0 h1 hk
+
+/-- **End-to-end conservation** through the phase-split solve, the end of `equil_MM` (whichever way it is left:
+    converged two-phase, converged with β ∈ {0,1}, or the single-phase branch after the stability test) and the
+    back-conversion of `equilibrium`: for ANY non-negative K (zeros allowed) for which the denominators at the
+    returned β are positive — automatic for K > 0 (`rr_denominators_pos_at_result`) and for K ≥ 0 with β < 1
+    (`rr_denominators_pos_nonneg_K`) — every component of the full feed is conserved and both phase masses
+    are non-negative. -/
+theorem equilibrium_conserves_end_to_end (m M K : List ℝ) (fuel : Nat) (conv : Bool) (h : IsFeed m M)
+    (hfeed' : IsFeed (gather (mask m) m) (gather (mask m) M))
+    (hlen : (gather (mask m) m).length = K.length) (hK0 : ∀ k ∈ K, 0 ≤ k)
+    (hd : ∀ k ∈ K, 0 < 1 + (gasLiqEq (gather (mask m) m) (gather (mask m) M) K fuel).beta * (k - 1)) (i : Nat) :
+    let r := gasLiqEq (gather (mask m) m) (gather (mask m) M) K fuel
+    let e := equilibriumPost m M
+      (equilMMEnd (moleFrac (gather (mask m) m) (gather (mask m) M)) conv ⟨r.xg, r.xl, r.beta, some K⟩)
+    e.mg.getD i 0 + e.ml.getD i 0 = m.getD i 0 ∧ 0 ≤ e.mg.getD i 0 ∧ 0 ≤ e.ml.getD i 0 := by
+  intro r e
+  have hz := feed_moleFrac_isComposition _ _ hfeed'
+  have hzl : (moleFrac (gather (mask m) m) (gather (mask m) M)).length = K.length := by
+    rw [moleFrac_real]; simp [Num.vdiv, hfeed'.1, hlen]
+  obtain ⟨b0, b1⟩ := rr_beta_mem _ K fuel hzl (comp_le_one hz)
+  have hmi : 0 ≤ m.getD i 0 := getD_nonneg m h.2.1 i
+  obtain ⟨⟨g1, g2⟩, ⟨l1, l2⟩⟩ := single_phase_masses m M h i
+  -- the three possible shapes of what `equil_MM` returns
+  have shapes : equilMMEnd (moleFrac (gather (mask m) m) (gather (mask m) M)) conv ⟨r.xg, r.xl, r.beta, some K⟩
+      = ⟨moleFrac (gather (mask m) m) (gather (mask m) M), zeros (moleFrac (gather (mask m) m) (gather (mask m) M)), 1, none⟩ ∨
+    equilMMEnd (moleFrac (gather (mask m) m) (gather (mask m) M)) conv ⟨r.xg, r.xl, r.beta, some K⟩
+      = ⟨zeros (moleFrac (gather (mask m) m) (gather (mask m) M)), moleFrac (gather (mask m) m) (gather (mask m) M), 0, none⟩ ∨
+    equilMMEnd (moleFrac (gather (mask m) m) (gather (mask m) M)) conv ⟨r.xg, r.xl, r.beta, some K⟩
+      = ⟨r.xg, r.xl, r.beta, some K⟩ := by
+    cases conv
+    · rw [equilMMEnd_single_phase]
+      by_cases hb : 1 / 2 < r.beta
+      · left; exact (label_from_last_beta _ _).1 hb
+      · right; left; exact (label_from_last_beta _ _).2 hb
+    · by_cases hb1 : r.beta = 1
+      · left; exact (equilMMEnd_converged_single _ ⟨r.xg, r.xl, r.beta, some K⟩).1 hb1
+      · by_cases hb0 : r.beta = 0
+        · right; left; exact (equilMMEnd_converged_single _ ⟨r.xg, r.xl, r.beta, some K⟩).2 hb0
+        · right; right; exact equilMMEnd_two_phase _ ⟨r.xg, r.xl, r.beta, some K⟩ hb0 hb1
+  rcases shapes with s | s | s
+  · have he : e = equilibriumPost m M ⟨moleFrac (gather (mask m) m) (gather (mask m) M),
+        zeros (moleFrac (gather (mask m) m) (gather (mask m) M)), 1, none⟩ := by
+      show equilibriumPost m M _ = _; rw [s]
+    rw [he, g1, g2]; exact ⟨by ring, hmi, le_refl _⟩
+  · have he : e = equilibriumPost m M ⟨zeros (moleFrac (gather (mask m) m) (gather (mask m) M)),
+        moleFrac (gather (mask m) m) (gather (mask m) M), 0, none⟩ := by
+      show equilibriumPost m M _ = _; rw [s]
+    rw [he, l1, l2]; exact ⟨by ring, le_refl _, hmi⟩
+  · have he : e = equilibriumPost m M ⟨r.xg, r.xl, r.beta, some K⟩ := by
+      show equilibriumPost m M _ = _; rw [s]
+    rw [he]
+    obtain ⟨n1, n2⟩ := rows_nonneg_of_den (moleFrac (gather (mask m) m) (gather (mask m) M)) K r.beta hz.1 hK0 hd
+    have hl := rows_length (moleFrac (gather (mask m) m) (gather (mask m) M)) K r.beta hzl
+    exact masses_conserved m M ⟨r.xg, r.xl, r.beta, some K⟩ h (by
+        show (rows _ K r.beta).1.length = (rows _ K r.beta).2.length
+        rw [hl.1, hl.2]) b0 b1 n1 n2
+      (rows_balance _ K r.beta hzl (fun k hk => (hd k hk).ne')) i
 
 end TamocV.Props.C02
